@@ -514,6 +514,56 @@ func main() {
 		cases = append(cases, &caseT{id: fmt.Sprintf("group-renamed-%d", k), doc: d, types: tm, typeOrder: to, outDir: "./grn" + strconv.Itoa(k),
 			muts: []mutation{{"rename-group", "group and counter field " + oldName + " renamed to " + newName}}})
 	}
+	// a framing field the generator leaves out of the header / trailer component (BeginString, BodyLength, MsgType,
+	// CheckSum) standing somewhere else than at its usual place in the schema: the members behind it keep their slots
+	for k, mv := range []struct {
+		trailer     bool
+		name, after string
+	}{{false, "MsgType", "TargetCompID"}, {false, "BodyLength", "SenderCompID"}, {true, "CheckSum", ""}} {
+		d, tm, to := clone(bases[0])
+		cont := d.Header
+		if mv.trailer {
+			cont = d.Trailer
+		}
+		if cont == nil {
+			continue
+		}
+		var moved *xMember
+		var rest []*xMember
+		for _, kid := range cont.Kids {
+			if kid.Name == mv.name && moved == nil {
+				moved = kid
+			} else {
+				rest = append(rest, kid)
+			}
+		}
+		if moved == nil {
+			continue
+		}
+		var kids []*xMember
+		placed := false
+		if mv.after == "" {
+			kids = append(kids, moved) // to the front
+			placed = true
+		}
+		for _, kid := range rest {
+			kids = append(kids, kid)
+			if !placed && kid.Name == mv.after {
+				kids = append(kids, moved)
+				placed = true
+			}
+		}
+		if !placed {
+			continue
+		}
+		cont.Kids = kids
+		where := "behind " + mv.after
+		if mv.after == "" {
+			where = "to the front of the trailer"
+		}
+		cases = append(cases, &caseT{id: fmt.Sprintf("framing-field-moved-%d", k), doc: d, types: tm, typeOrder: to, outDir: "./frm" + strconv.Itoa(k),
+			muts: []mutation{{"move-framing-field", "framing field " + mv.name + " moved " + where}}})
+	}
 	// every cast the generator knows, applied to a type no session pipeline depends on (the shipped mappings use
 	// String, Bool, Int and Float only)
 	for _, tc := range [][2]string{{"DATA", "Raw"}, {"UTCTIMEONLY", "Time"}, {"LOCALMKTDATE", "Time"}, {"CURRENCY", "Raw"}, {"DATA", "Int"}, {"PRICEOFFSET", "String"}} {
